@@ -30,6 +30,16 @@ type Case struct {
 	T      string // transition under test: START_ACTIVITY | STOP_ACTIVITY | RESET | CONFIGURE
 	NTasks int
 	Hooks  []H
+	Slow   []int // indices of call hooks that take 350 ms to return (the others at their await point are long back by then)
+}
+
+func (c Case) slow(h int) bool {
+	for _, i := range c.Slow {
+		if i == h {
+			return true
+		}
+	}
+	return false
 }
 
 var prep = map[string][]string{"START_ACTIVITY": {}, "STOP_ACTIVITY": {"START_ACTIVITY"}, "RESET": {}, "CONFIGURE": {"RESET"}}
@@ -97,6 +107,9 @@ func run(c Case) (res vh.Result) {
 			if !active {
 				return simworld.ProbeReply{}
 			}
+			if c.slow(h) {
+				time.Sleep(350 * time.Millisecond)
+			}
 			switch c.Hooks[h].Fail {
 			case "error":
 				return simworld.ProbeReply{Fail: fmt.Sprintf("simulated failure of hook %d", h)}
@@ -156,6 +169,9 @@ func run(c Case) (res vh.Result) {
 	}
 	if simultaneous {
 		res.Classes = append(res.Classes, "simultaneous-failures")
+	}
+	if len(c.Slow) > 0 {
+		res.Classes = append(res.Classes, "slow-call")
 	}
 	for _, h := range c.Hooks {
 		if h.Kind == "task" {
@@ -293,6 +309,30 @@ func run(c Case) (res vh.Result) {
 			taskCmds++
 		}
 	}
+	// a call started during T has returned before T is over: the state machine does not move past the point where the
+	// call is awaited (here always its own trigger point) while it is still out
+	started, ended := map[int]bool{}, map[int]int{}
+	for _, p := range tr.Probes {
+		if p.Phase == "start" && p.Bracket == bi {
+			started[p.Hook] = true
+		}
+	}
+	for _, p := range tr.Probes {
+		if p.Phase == "end" && started[p.Hook] {
+			if _, seen := ended[p.Hook]; !seen || p.Bracket == bi {
+				ended[p.Hook] = p.Bracket
+			}
+		}
+	}
+	for h := range started {
+		if c.Hooks[h].Kind != "call" {
+			continue
+		}
+		if eb, ok := ended[h]; !ok || eb != bi {
+			return fail("moved-past-unreturned-call", "call hook %d (%s%+d, slow=%v) was started during %s and had not returned when %s was over (its end was seen %s)", h, moments[c.Hooks[h].Moment], c.Hooks[h].Weight, c.slow(h), c.T, c.T,
+				map[bool]string{true: "never", false: "in a later transition"}[!ok])
+		}
+	}
 	for i := range c.Hooks {
 		switch expectRun[i] {
 		case "yes":
@@ -397,6 +437,9 @@ func gen(t *rapid.T) Case {
 		if h.Fail != "" && h.Kind == "call" {
 			failingAt[k] = true
 		}
+		if h.Kind == "call" && rapid.IntRange(0, 4).Draw(t, "slow") == 0 {
+			c.Slow = append(c.Slow, i)
+		}
 		c.Hooks = append(c.Hooks, h)
 	}
 	return c
@@ -422,6 +465,18 @@ func TestFixed(t *testing.T) {
 			vh.Fixed(t, prop, fmt.Sprintf("%s-critical-call-fails-at-moment-%d", T, m), Case{T: T, NTasks: 1, Hooks: []H{
 				{"call", 0, -1, false, ""}, {"call", m, 0, true, "error"}, {"call", m, 1, true, ""}, {"call", 4, 2, false, "error"}}}, vh.Confirmed(run))
 		}
+	}
+	// a critical call fails at once while another call awaited at the same point is still out
+	for _, m := range []int{0, 1, 3} {
+		vh.Fixed(t, prop, fmt.Sprintf("critical-failure-while-sibling-call-is-out-moment-%d", m), Case{T: "START_ACTIVITY", NTasks: 1, Slow: []int{1, 2}, Hooks: []H{
+			{"call", m, 0, true, "error"}, {"call", m, 0, false, ""}, {"call", m, 0, true, "error"}, {"call", 4, 1, false, ""}}}, vh.Confirmed(run))
+	}
+	// a critical and a non-critical hook fail at the same point (in either order of bookkeeping): later weights do not run
+	vh.Fixed(t, prop, "critical-call-and-noncritical-task-fail-together", Case{T: "START_ACTIVITY", NTasks: 1, Hooks: []H{
+		{"call", 0, 0, true, "error"}, {"task", 0, 0, false, "exit"}, {"call", 0, 1, false, ""}, {"call", 1, 0, false, ""}}}, vh.Confirmed(run))
+	for rep := 0; rep < 4; rep++ {
+		vh.Fixed(t, prop, fmt.Sprintf("critical-and-noncritical-calls-fail-together-%d", rep), Case{T: "RESET", NTasks: 1, Hooks: []H{
+			{"call", 0, -1, false, "error"}, {"call", 0, -1, true, "error"}, {"call", 0, -1, false, "timeout"}, {"call", 0, 0, false, ""}, {"call", 1, 0, true, ""}}}, vh.Confirmed(run))
 	}
 	vh.Fixed(t, prop, "noncritical-everything-fails", Case{T: "START_ACTIVITY", NTasks: 2, Hooks: []H{
 		{"call", 0, -1, false, "error"}, {"task", 0, 0, false, "exit"}, {"call", 1, 0, false, "timeout"}, {"task", 3, 1, false, "never"}, {"task", 4, 0, false, "involuntary"}}}, vh.Confirmed(run))
